@@ -146,6 +146,18 @@ type SpecDB struct {
 	Files   []string
 	FieldCalls map[string]string // "pkg.Type.field" -> function key called through the field
 	NonNilGlobalPkgs map[string]bool
+	Immutable []*ImmutableSpec
+}
+
+// ImmutableSpec declares fields that are written only while their object is
+// being constructed (final fields): no call can change them afterwards.
+type ImmutableSpec struct {
+	Expr    *SExpr
+	Src     string
+	Pkg     string
+	Imports map[string]string
+	File    string
+	Line    int
 }
 
 func newSpecDB() *SpecDB {
@@ -159,7 +171,7 @@ func newSpecDB() *SpecDB {
 var topKeywords = map[string]bool{
 	"pred": true, "fun": true, "ghost": true, "lock": true, "func": true, "interface": true,
 	"lemma": true, "pure": true, "axiom": true, "import": true, "ext": true, "opaque": true, "field": true,
-	"nonnil-globals": true,
+	"nonnil-globals": true, "immutable": true,
 }
 
 var subKeywords = map[string]bool{
@@ -359,6 +371,14 @@ func (db *SpecDB) loadSpecFile(path, pkgPath string, assumed bool) error {
 			imports[f[0]] = f[1]
 		case "opaque":
 			db.Opaque[expandTypeKey(d.text, pkgPath, imports)] = true
+		case "immutable":
+			for _, part := range splitTopLevel(d.text, ',') {
+				e, err := parseSpecExpr(strings.TrimSpace(part))
+				if err != nil {
+					return fmt.Errorf("%s: %v", where, err)
+				}
+				db.Immutable = append(db.Immutable, &ImmutableSpec{Expr: e, Src: strings.TrimSpace(part), Pkg: pkgPath, Imports: imports, File: path, Line: d.line})
+			}
 		case "nonnil-globals":
 			db.NonNilGlobalPkgs[strings.TrimSpace(d.text)] = true
 		case "field":
